@@ -130,3 +130,46 @@ def cells_to_percentages_harness(kind):
                   "ttconv.scc.utils:get_extent_from_dimensions"],
                  "replayers.c08:cells", {"kind": kind},
                  "on the same rows: cell coordinates -> percentages is the nearest integer per component, x/y kept apart, rows stay distinct and ordered")
+
+
+PARAGRAPH_ROWS = [((1,), (0,)), ((15,), (31,)), ((7,), (4,)), ((1, 2), (0, 0)), ((2, 1), (3, 8)), ((14, 15), (8, 3)), ((15, 1), (0, 28)),
+                  ((3, 9), (12, 12)), ((9, 3), (1, 0)), ((1, 2, 3), (4, 2, 6)), ((13, 15, 14), (6, 4, 2)), ((4, 2, 11), (2, 6, 4))]
+
+
+def paragraph_box_harness(rows, indents):
+  """`on the same rows`: the box of a caption (SccCaptionParagraph.get_origin / get_extent), built through the real
+  set_cursor_at / append_text on the rows and indents given (concrete: the row is a dict key and the indent drives string padding and
+  slicing, both outside the symbolic fragment -- pyvc answers `unsupported` for a symbolic indent) and EVERY safe-area offset: origin == (smallest indent + safe-area x, smallest row - 1 + safe-area y) in cells,
+  extent == (longest line, last row - first row + 1); lines keep the row and indent they were given, in the order of the rows."""
+  import ttconv.scc.caption_paragraph as CP
+  import ttconv.style_properties as S
+
+  def run(ctx):
+    sx, sy = core.sym_int("sx"), core.sym_int("sy")
+    assume((sx >= 0) & (sx <= 8) & (sy >= 0) & (sy <= 4))
+    ind = list(indents)
+    texts = ["ab", "cdefg", "h"][:len(rows)]
+    p = CP.SccCaptionParagraph(sx, sy)
+    for r, i, t in zip(rows, ind, texts):
+      p.set_cursor_at(r, i)
+      p.append_text(t)
+    o, e = p.get_origin(), p.get_extent()
+    lo = min(ind)
+    prove(core.vc_is(o.x.units, S.LengthType.Units.c) & core.vc_is(o.y.units, S.LengthType.Units.c), "origin-in-cells")
+    prove(o.x.value == lo + sx, "origin-x == smallest indent + safe-area offset")
+    prove(o.y.value == min(rows) - 1 + sy, "origin-y == first row - 1 + safe-area offset")
+    prove(e.height.value == max(rows) - min(rows) + 1, "extent-height == rows spanned")
+    prove(e.width.value == max(len(t) for t in texts), "extent-width == longest line")
+    lines = p.get_lines()
+    prove(sorted(lines.keys()) == sorted(rows), "one-line-per-row")
+    for r, i, t in zip(rows, ind, texts):
+      prove((lines[r].get_row() == r) and (lines[r].get_indent() == i), f"row-{r}:line keeps its row and indent")
+      prove(lines[r].get_length() == len(t), f"row-{r}:line keeps its text")
+
+  name = ",".join(f"{r}@{i}" for r, i in zip(rows, indents))
+  return Harness(f"scc.paragraph-box[{name}]", run,
+                 ["ttconv.scc.caption_paragraph:SccCaptionParagraph.get_origin", "ttconv.scc.caption_paragraph:SccCaptionParagraph.get_extent",
+                  "ttconv.scc.caption_paragraph:SccCaptionParagraph.set_cursor_at", "ttconv.scc.caption_paragraph:SccCaptionParagraph.append_text",
+                  "ttconv.scc.caption_paragraph:SccCaptionParagraph.indent_cursor", "ttconv.scc.caption_paragraph:SccCaptionParagraph.new_caption_line"],
+                 "replayers.c08:box", {"rows": list(rows), "indents": list(indents)},
+                 "on the same rows: the caption box is the smallest indent / first row plus the safe-area offsets, lines keep row and indent")
